@@ -89,7 +89,8 @@ func (r *Reader) readXRef() (map[uint32]*xRefEntry, Dict, error) {
 
 			if xRefStm, ok := dict["XRefStm"]; ok {
 				zStart, ok := xRefStm.(Integer)
-				if !ok {
+				if !ok || zStart <= 0 || int64(zStart) >= size-r.headerOffset {
+					// like /Prev: the position must lie inside the file
 					return nil, nil, &MalformedFileError{
 						Err: errInvalidXref,
 					}
